@@ -10,7 +10,9 @@ package main
 //   R17.3  the printer's "may be written bare" test for action and attribute names is built from the lexer's own
 //          identifier predicates and reserved-word test, so a name printed bare lexes as one identifier token;
 //   R17.5  every switch over the schema type sum (printer, JSON encoder, resolver, reference collector) is exhaustive.
-// Not decided: the namespace/declaration level of the JSON codec; that both formats resolve to the same resolved schema; declaration-level text grammar (which printed
+//   R17.1n JSON namespace codec: decode(encode(namespace)) gives back every declaration map keyed as before, with
+//          annotations, shapes, tags, enum values, action parents, applies-to lists and contexts from the same fields;
+// Not decided: that both formats resolve to the same resolved schema; declaration-level text grammar (which printed
 // forms the parser accepts beyond the vocabulary); byte-identical second rendering.
 
 import (
@@ -144,7 +146,125 @@ func c17TypeCodec(p *Prog, r *Report) {
 	}
 	r.Floor(rule, 8)
 
-	_, _ = nsEnc, nsDec // the namespace-level codec (maps filled by several loops, lazily created maps) is not decided; see DESIGN.md
+	c17Namespace(p, r, mk, nsEnc, nsDec, nsT)
+}
+
+// c17Namespace: decode(encode(namespace)) gives back every declaration map keyed as before, with annotations, shapes,
+// tags, enum values, action parents, applies-to lists and contexts taken from the same fields.
+func c17Namespace(p *Prog, r *Report, mk func(map[string]types.Type) func() *sev, nsEnc, nsDec *types.Func, nsT *types.Named) {
+	const ruleN = "R17.1n-json-namespace-codec"
+	if nsEnc == nil || nsDec == nil || nsT == nil {
+		r.Anchor(ruleN, "schema JSON namespace encoder/decoder")
+		return
+	}
+	// one family of rows per declaration map (the others assumed empty): the maps are independent of each other
+	nst := structOf(nsT)
+	var declMaps []string
+	for i := 0; i < nst.NumFields(); i++ {
+		if _, isMap := nst.Field(i).Type().Underlying().(*types.Map); isMap {
+			declMaps = append(declMaps, nst.Field(i).Name())
+		}
+	}
+	var outs []sevOutcome
+	for _, focus := range append([]string{""}, declMaps...) {
+		preset := map[string]string{}
+		for _, dm := range declMaps {
+			if dm != focus {
+				preset["empty:ns."+dm] = "empty"
+			}
+		}
+		outs = append(outs, c17NamespaceRows(preset, mk, nsEnc, nsDec, nsT)...)
+	}
+	c17NamespaceJudge(p, r, ruleN, outs, nsDec, nsT)
+}
+
+func c17NamespaceRows(preset map[string]string, mk func(map[string]types.Type) func() *sev, nsEnc, nsDec *types.Func, nsT *types.Named) []sevOutcome {
+	return runForksWith(preset, mk(nil), func(s *sev) (tv, any) {
+		sig := nsEnc.Type().(*types.Signature)
+		var args []tv
+		for i := 0; i < sig.Params().Len()-1; i++ {
+			args = append(args, &tSym{Name: "name" + itoa(i), T: sig.Params().At(i).Type()})
+		}
+		args = append(args, &tSym{Name: "ns", T: nsT})
+		res := s.callFn(nil, &tFn{Obj: nsEnc}, args, false, nil)
+		t, ok := res.(*tTuple)
+		if !ok || len(t.Vs) != 2 {
+			s.abort("encoder result %s", res.ts())
+		}
+		if _, isNil := t.Vs[1].(tNil); !isNil {
+			s.abort("the encoder returns an error")
+		}
+		out := s.callFn(nil, &tFn{Obj: nsDec}, []tv{cloneTV(t.Vs[0])}, false, nil)
+		return out, nil
+	})
+}
+
+func c17NamespaceJudge(p *Prog, r *Report, ruleN string, outs []sevOutcome, nsDec *types.Func, nsT *types.Named) {
+	nOK, nDomain := 0, 0
+	und := map[string]bool{}
+	vio := map[string]string{}
+	for _, o := range outs {
+		if o.Abort != "" {
+			und[clip(o.Abort, 220)] = true
+			continue
+		}
+		t, ok := o.Result.(*tTuple)
+		if !ok || len(t.Vs) != 2 {
+			und["decoder result not understood"] = true
+			continue
+		}
+		// an enum declared without values is not expressible in either schema format (the grammar and the JSON format require at least one)
+		emptyEnum := false
+		for k, v := range o.Assume {
+			if strings.HasPrefix(k, "empty:") && strings.Contains(k, "Enums") && strings.HasSuffix(k, ".Values") && v == "empty" {
+				emptyEnum = true
+			}
+		}
+		if emptyEnum {
+			nDomain++
+			continue
+		}
+		if _, isNil := t.Vs[1].(tNil); !isNil {
+			vio["$"] = "decoding the encoder's own output ends in an error return [" + clip(assumeString(o.Assume), 200) + "]"
+			continue
+		}
+		s := newSev(p)
+		s.refine, s.assume = o.Refine, o.Assume
+		diffs := s.identity(t.Vs[0], &tSym{Name: "ns", T: nsT}, func(path string) bool { return true })
+		if len(diffs) == 0 {
+			nOK++
+			continue
+		}
+		for _, d := range diffs {
+			field := d
+			if i := strings.Index(d, ":"); i > 0 {
+				field = d[:i]
+			}
+			if _, dup := vio[field]; !dup {
+				vio[field] = d + " [row: " + clip(assumeString(o.Assume), 160) + "]"
+			}
+		}
+	}
+	var fields []string
+	for f := range vio {
+		fields = append(fields, f)
+	}
+	sort.Strings(fields)
+	for _, f := range fields {
+		r.Viol(ruleN, "schemajson.namespace:"+f, p.pos(nsDec.Pos()), "decode(encode(namespace)) differs from the original: "+vio[f])
+	}
+	var us []string
+	for u := range und {
+		us = append(us, u)
+	}
+	sort.Strings(us)
+	for _, u := range us {
+		r.Undec(ruleN, "schemajson.namespace", p.pos(nsDec.Pos()), "a row of the namespace codec is outside the converter idioms the extraction understands: "+u)
+	}
+	if len(fields) == 0 && len(us) == 0 {
+		r.Check(nOK >= 8, ruleN, "schemajson.namespace", p.pos(nsDec.Pos()), "decode(encode(namespace)) = the same namespace on all "+itoa(nOK)+" extracted rows (presence/absence of annotations, shapes, tags, parents, applies-to, contexts); "+itoa(nDomain)+" rows with a value-less enum are outside both formats",
+			"only "+itoa(nOK)+" rows of the namespace codec were extracted")
+	}
 }
 
 // stringsWritten: string constants passed to Write*/Fprintf-style sinks in the functions.
